@@ -305,6 +305,12 @@ func (w *World) prelude() string {
 (declare-fun msumR ((Array Int Bool) (Array Int Int) (Array Int Bool)) Int)
 (declare-fun lsum (Int Int (Array Int Int)) Int)
 (declare-fun pset ((Array Int Int) Int Int) (Array Int Bool))
+(declare-fun bshl (Int Int) Int)
+(declare-fun bshr (Int Int) Int)
+(declare-fun band (Int Int) Int)
+(declare-fun bor (Int Int) Int)
+(declare-fun bxor (Int Int) Int)
+(declare-fun bandnot (Int Int) Int)
 (declare-fun u2f (Int) F)
 (declare-fun f2u (F) Int)
 (declare-fun fdiv (F F) F)
